@@ -2,7 +2,7 @@
 No reference model: these programs feed the differential checks (C04, C18) only."""
 
 TEMPLATES = ["dup_class_names", "big_string", "many_functions", "control_flow", "string_builtins", "optionals", "numeric_kinds",
-             "many_locals", "deep_expr", "long_ident", "many_args", "many_closures", "deep_nesting", "huge_string"]
+             "many_locals", "deep_expr", "long_ident", "many_args", "many_closures", "deep_nesting", "huge_string", "unicode_offsets"]
 SPECIALS = ['\\"', "\\\\", " ", "\\t", "\\n", "é", " ", "n", "#", "'"]
 
 
@@ -64,6 +64,12 @@ def render(spec):
         body = "<" + ("abcdefghij" * (size // 10 + 1))[:size - 2] + ">"
         L.append('s = "%s"' % body)
         L.append('print s.len()\nprint s.substring(0, 3)\nprint s.substring(s.len() - 3, s.len())\nprint s.contains("j>")')
+    elif t == "unicode_offsets":
+        # a multi-byte character at every byte offset 0..139 of a string literal (whoever cuts, pads or previews an
+        # argument at a fixed BYTE position — 16, 32, 48, 64, 128 — meets one of them in the middle of a character)
+        wide = ["é", "€", "😀"][a % 3]
+        for k in range(0, 140):
+            L.append('print "%s%s%s."' % ("abcdefghij"[k % 10] * k, wide, wide if k % 2 else ""))
     elif t == "many_locals":
         n = spec["n"]
         for i in range(n):
